@@ -818,7 +818,7 @@ func (e *Engine) callValue(st *State, fnv Value, args []Value, retTo ssa.Value, 
 	if len(th.frames) > 200 {
 		unm("call depth exceeded at %s", name)
 	}
-	if e.summarise[name] && !e.inInit {
+	if (e.summarise[name] || e.summariseByPattern(fn)) && !e.inInit {
 		return e.summariseCall(st, fn, args, fv.bind, retTo, advance)
 	}
 	nf := e.newFrame(fn, args, fv.bind, retTo)
